@@ -17,20 +17,23 @@ RULE = ("Hypothesis histories (3-25 steps) of append / multi-op transaction / de
         "its commit; lookup by id and by timestamp (at, just before, just after every recorded timestamp) are compared with the model; bytes of every data and "
         "manifest file are hashed over the whole history. Non-trivial: a snapshot older than the current one was re-read after a delete-rewrite, expiry, "
         "snapshot deletion or collection. distinct = hash of the history.")
-ASSUMPTIONS = ["clocks do not run backwards here (then 'not newer than t' and 'most recently committed' can disagree); backwards clocks are C15's",
+ASSUMPTIONS = ["a third of the histories let the clock step backwards between commits; there 'not newer than t' and 'most recently committed' can disagree, so",
                "timestamp lookups are only checked while recorded timestamps are non-decreasing in commit order"]
 REQUIRED_LABELS = {"quick": ["deleted-current", "gc", "op:delete_files"], "thorough": ["deleted-current", "gc"]}
 
 
 @st.composite
 def case_strategy(draw):
-    clock = draw(st.sampled_from(["real", "manual"]))
-    steps = draw(history_strategy(25, gc=True, clock_ticks="forward", open_txn=True))
+    # manual_back: the wall clock may step BACK between commits (NTP step, writers on hosts with skewed clocks): commit order
+    # and timestamp order then differ; everything stated in terms of commit recency (repointing, immutability) still applies
+    clock = draw(st.sampled_from(["real", "manual", "manual_back"]))
+    steps = draw(history_strategy(25, gc=True, clock_ticks="any" if clock == "manual_back" else "forward", open_txn=True))
     return {"kind": "history", "clock": clock, "steps": steps}
 
 
 def check_history(case):
-    vios, labels, facts = run_history(PROP, case["steps"], clock_mode=case["clock"])
+    vios, labels, facts = run_history(PROP, case["steps"], clock_mode="real" if case["clock"] == "real" else "manual")
+    labels = list(labels) + ([ "clock-steps-back"] if case["clock"] == "manual_back" else [])
     snaps = 0
     nontrivial = False
     for s in case["steps"]:
